@@ -51,6 +51,10 @@ def markDeleted (s : Sets α) (p : α) : Sets α :=
 def markUpdated (s : Sets α) (p : α) : Sets α :=
   { deleted := discard p s.deleted, updated := add p s.updated }
 
+/-- The loop of the DELETED_PARENT arm over the paths the workflow lists. -/
+def delLoop (L : List α) (s : Sets α) : Sets α :=
+  L.foldl (fun s sub => if sub ∉ s.deleted then markDeleted s sub else s) s
+
 /-- `Watcher.record_change` -/
 def recordChange (v : View α) (s : Sets α) (e : Event α) : Sets α :=
   match e.change with
@@ -59,7 +63,7 @@ def recordChange (v : View α) (s : Sets α) (e : Event α) : Sets α :=
   | .updated =>
     if e.path ∉ s.updated then (if v.relevant e.duringBuild e.path then markUpdated s e.path else s) else s
   | .deletedParent =>
-    (v.under e.duringBuild e.path).foldl (fun s sub => if sub ∉ s.deleted then markDeleted s sub else s) s
+    delLoop (v.under e.duringBuild e.path) s
 
 /-- The two loops of `run_once` that consume the queue. -/
 def recordAll (v : View α) (s : Sets α) (evs : List (Event α)) : Sets α := evs.foldl (recordChange v) s
